@@ -323,13 +323,18 @@ static Coh checkLoggerCoherent(Logger *logger)
                     stored = std::any_cast<ComponentPtr>(item->mPimpl->mItem);
                 } catch (const std::bad_any_cast &) {
                 }
-                if (stored != nullptr && item->component() == nullptr) {
+                if (stored == nullptr) {
+                    ++c.nullPayload;
+                    bad << "issue(" << i << ").item:type=math-holds-no-object;";
+                } else if (item->component() == nullptr) {
                     ++c.mathUnreachable;
                 } else if (item->component() != stored) {
                     bad << "issue(" << i << ").item:type=math-component()-is-not-the-stored-component;";
                 }
             } else if (own >= 0 && r[size_t(own)] == nullptr) {
+                // the stated type is not UNDEFINED but no object is stored: "matches its stated element type or is undefined" fails
                 ++c.nullPayload;
+                bad << "issue(" << i << ").item:type=" << cellmlElementTypeAsString(t) << "-holds-no-object;";
             }
         }
         const char *nm3[3] = {"error", "warning", "message"};
